@@ -118,7 +118,7 @@ theorem head64_plus (m z : Int) (hz : fits64 z = true) (h0 : 0 ≤ z) :
     head64 m (43 :: intStr z) = head64 m (intStr z) := by
   rw [head64_intStr m z hz, if_neg (by omega)]
   unfold head64
-  rw [if_neg (by simp), if_neg (by simp)]
+  rw [if_neg (by simp [(intStr_shape z).1]), if_neg (by simp)]
   have : parseInt64 (43 :: intStr z) = some z := by
     have := parseInt64_intStr z hz
     unfold parseInt64 at this ⊢
@@ -135,7 +135,7 @@ theorem head128_plus (m z : Int) (h0 : 0 ≤ z) :
     head128 m (43 :: intStr z) = head128 m (intStr z) := by
   rw [head128_intStr m z, if_neg (by omega)]
   unfold head128
-  rw [if_neg (by simp), if_neg (by simp)]
+  rw [if_neg (by simp [(intStr_shape z).1]), if_neg (by simp)]
   have : parseSigned (43 :: intStr z) = some z := by
     have := parseSigned_intStr z
     have e : parseSigned (43 :: intStr z) = parseSigned (intStr z) := by
